@@ -5,7 +5,7 @@ from ._spec_common import *
 
 PROPERTY = "C05"
 LEVEL = "proof"
-TARGETS = ['MutateAttr', 'SetAttr', 'WithAttr', 'ResetAttr', 'Reset', 'DelAttr']
+TARGETS = ['MutateAttr', 'SetAttr', 'WithAttr', 'ResetAttr', 'Reset', 'DelAttr', 'MutateValue', 'UpdateAttr', 'TransformAttr', 'Update', 'Transform']
 FAMILY_FILTER = ['c05.', 'c08.slot'] + STRUCTURAL
 ASSUMPTIONS = A_COMMON + [
     "clauses of other properties on the same functions are discharged by those properties' own checks",
